@@ -111,3 +111,23 @@ Theorem C01_new_polygon_at_crossing :
     gen_isContributingClosed fr ct w1 c is_subj && gen_isContributingClosed fr ct w2 c is_subj.
 Proof. exact newpoly_same_set_is_both_contributing. Qed.
 Print Assumptions C01_new_polygon_at_crossing.
+
+(* K3, second batch (Gen/Kernels2_gen.v, regenerated from engine.go on every run): topX — the x of an active edge at
+   a scanline is EXACTLY the input vertex at both ends of the edge and on vertical edges, whatever the stored slope:
+   the vertices the sweep emits at local minima, maxima and intermediate vertices are input vertices, not rounded *)
+From Clip Require Import Model.KernelOps Model.SimplifyF64 Gen.Kernels2_gen Model.Kernel2Proofs.
+Theorem C01_topX_exact_at_vertices : forall bx by_ dx tx ty,
+  gen_topX ty bx by_ dx tx ty = tx /\ (ty <> by_ -> gen_topX by_ bx by_ dx tx ty = bx) /\
+  (forall y, gen_topX y bx by_ dx bx ty = bx).
+Proof.
+  intros. split; [apply topX_at_top | split; [apply topX_at_bot | intro; apply topX_vertical]].
+Qed.
+Theorem C01_topX_between_from_source : forall y bx by_ dx tx ty,
+  y <> ty -> tx <> bx -> y <> by_ ->
+  gen_topX y bx by_ dx tx ty = add64 bx (i64_of_f (fround (fmul dx (fsub (f_of_int y) (f_of_int by_))))).
+Proof. exact topX_between. Qed.
+Theorem C01_IsOdd_from_source : forall v, gen_IsOdd v = Z.odd v.
+Proof. exact IsOdd_spec. Qed.
+Example C01_topX_example : gen_topX 5 0 10 (Qmake (-1) 2) 5 0 = 3%Z /\ gen_topX 7 0 10 (Qmake (-1) 2) 5 0 = 2%Z.
+Proof. vm_compute. split; reflexivity. Qed.
+Print Assumptions C01_topX_exact_at_vertices.
